@@ -126,6 +126,56 @@ pub unsafe extern "C" fn pthread_join(th: libc::pthread_t, ret_val: *mut *mut c_
     real(th, ret_val)
 }
 
+/// canonical form of a simulated path: the simulated disk has no links and the generated paths no dots, so an
+/// existing file's path is canonical as it stands
+#[no_mangle]
+pub unsafe extern "C" fn realpath(path: *const c_char, resolved: *mut c_char) -> *mut c_char {
+    type Real = unsafe extern "C" fn(*const c_char, *mut c_char) -> *mut c_char;
+    if !path.is_null() {
+        if let Some(r) = sim::hook_stat_path(cstr_bytes(path)) {
+            return match r {
+                Ok(_) => {
+                    let n = libc::strlen(path) + 1;
+                    let out = if resolved.is_null() { libc::malloc(n) as *mut c_char } else { resolved };
+                    if !out.is_null() {
+                        std::ptr::copy_nonoverlapping(path, out, n);
+                    }
+                    out
+                }
+                Err(e) => {
+                    *libc::__errno_location() = e;
+                    std::ptr::null_mut()
+                }
+            };
+        }
+    }
+    let real: Real = std::mem::transmute(next_sym(b"realpath\0"));
+    real(path, resolved)
+}
+
+#[no_mangle]
+pub unsafe extern "C" fn rename(old: *const c_char, new: *const c_char) -> c_int {
+    match sim::hook_rename(cstr_bytes(old), cstr_bytes(new)) {
+        Some(Ok(())) => 0,
+        Some(Err(e)) => {
+            *libc::__errno_location() = e;
+            -1
+        }
+        None => ret(sim::raw_syscall6(libc::SYS_rename, old as i64, new as i64, 0, 0, 0, 0)) as c_int,
+    }
+}
+#[no_mangle]
+pub unsafe extern "C" fn unlink(path: *const c_char) -> c_int {
+    match sim::hook_unlink(cstr_bytes(path)) {
+        Some(Ok(())) => 0,
+        Some(Err(e)) => {
+            *libc::__errno_location() = e;
+            -1
+        }
+        None => ret(sim::raw_syscall6(libc::SYS_unlink, path as i64, 0, 0, 0, 0, 0)) as c_int,
+    }
+}
+
 #[no_mangle]
 pub unsafe extern "C" fn ftruncate(fd: c_int, len: i64) -> c_int {
     match sim::hook_ftruncate(fd, len) {
